@@ -68,7 +68,7 @@ func (c *Converter) ExpandUpdate(ctx context.Context, upd *sdcpb.Update, include
 		var v interface{}
 		var err error
 		var jsonDecoder *json.Decoder
-		switch upd.GetValue().Value.(type) {
+		switch upd.GetValue().GetValue().(type) {
 		case *sdcpb.TypedValue_JsonIetfVal:
 			jsonDecoder = json.NewDecoder(bytes.NewReader(upd.GetValue().GetJsonIetfVal()))
 		case *sdcpb.TypedValue_JsonVal:
@@ -95,7 +95,7 @@ func (c *Converter) ExpandUpdate(ctx context.Context, upd *sdcpb.Update, include
 		var err error
 
 		var jsonValue []byte
-		switch upd.GetValue().Value.(type) {
+		switch upd.GetValue().GetValue().(type) {
 		case *sdcpb.TypedValue_JsonVal:
 			jsonValue = upd.GetValue().GetJsonVal()
 		case *sdcpb.TypedValue_JsonIetfVal:
@@ -727,7 +727,7 @@ func convertUpdateTypedValue(_ context.Context, upd *sdcpb.Update, scRsp *sdcpb.
 			return nil, nil
 		}
 		// regular leaf list
-		switch upd.GetValue().Value.(type) {
+		switch upd.GetValue().GetValue().(type) {
 		case *sdcpb.TypedValue_LeaflistVal:
 			return upd, nil
 		default:
